@@ -582,6 +582,56 @@ val run_dops : bs list -> sx list -> sx list
 
 val run_derived : sx -> sx
 
+type ccell = { cbits : bs; crefs : nat list; crc : nat }
+
+type heap = ccell list
+
+val new_cell : ccell
+
+val hget : heap -> nat -> ccell
+
+val hset : heap -> nat -> ccell -> heap
+
+val reset_counters : ccell -> ccell
+
+val refs_size : ccell -> nat
+
+val refs_avail : ccell -> nat
+
+val add_ref : nat -> ccell -> ccell * unit res
+
+val ref_slot : ccell -> nat -> nat option res
+
+val next_ref_g : (nat -> bool) -> heap -> nat -> heap * nat res
+
+val next_ref : heap -> nat -> heap * nat res
+
+val next_refs_g :
+  (heap -> nat -> heap * nat res) -> nat -> heap -> nat -> nat list ->
+  heap * nat list res
+
+val copy_remaining_g :
+  (heap -> nat -> heap * nat res) -> heap -> nat -> heap * nat res
+
+val copy_remaining : heap -> nat -> heap * nat res
+
+val new_ref : heap -> nat -> (heap * nat) * unit res
+
+val lookup_nat : (nat * nat) list -> nat -> nat option
+
+val reparsed_bits : bs -> bs
+
+val clone :
+  nat -> heap -> (nat * nat) list -> nat -> (heap * (nat * nat) list) * nat
+
+val out_id : nat res -> sx
+
+val rstep : heap -> sx -> heap * sx
+
+val run_rops : heap -> sx list -> sx list
+
+val run_refs : sx -> sx
+
 val m32 : n
 
 val add32 : n -> n -> n
@@ -2580,7 +2630,7 @@ val rd_bit0 : slc0 -> (bool * slc0) res
 
 val rd_uint : nat -> slc0 -> (n * slc0) res
 
-val next_ref : slc0 -> (cell * slc0) res
+val next_ref0 : slc0 -> (cell * slc0) res
 
 type oracle = { dict_ok : (nat -> cell -> bool); descr_ok : (cell -> bool) }
 
@@ -3393,6 +3443,10 @@ val print_bitstring : bits -> str
 val print_bitstring_bs : bs -> str res
 
 val read_bs : bits -> bits -> bits -> bs res
+
+val set_ons : nat -> bits -> bs -> bs
+
+val on_bs : bits -> bits -> bs
 
 val written_bs : bits -> nat -> bs
 
@@ -4311,7 +4365,7 @@ val ocell : bits -> cell list -> cell
 
 val cdata : cell -> bits
 
-val crefs : cell -> cell list
+val crefs0 : cell -> cell list
 
 val mk0 : bits -> cell list -> cell res
 
